@@ -2,20 +2,37 @@
 
 (a) Shared-write monitor: after a template is compiled, rendering it (several namespaces) must not change anything reachable
     from the template object, its compiled blocks, the tag classes' tables — the model (Conc.lean) has no per-render shared
-    write; what the first render (the cook) writes is listed in the evidence.
-(b) Deterministic scheduler (harness/sched.py: sys.settrace hand-off at line granularity inside DocumentTemplate/):
+    write; what the first render (the cook) writes is listed in the evidence.  Line by line as well (class Shared): before every
+    source line of a rendering of an already rendered template all shared state (template, compiled objects, their classes, the
+    package's module globals, function defaults and closures) is compared with what it was one line earlier, so a value that is
+    taken away and put back a few lines later is seen too.
+(b) Deterministic scheduler (harness/sched.py: sys.settrace hand-off at line granularity inside DocumentTemplate/ and TreeDisplay/):
     2 threads with different inputs on one shared template — every single-pre-emption schedule on the compiled template;
     on the uncompiled template single pre-emptions (strided + around the shared accesses), the targeted 3-pre-emption family
     around the cook (T0 passes the _v_cooked test | T1 cooks and is stopped before reading _v_blocks | T0 cooks again and is
     stopped inside the cook | T1 finishes | T0 finishes), 3 threads racing the cook, and random schedules.
-Oracle: each thread's result == the result of rendering alone.
+(c) Inputs: besides the values a template prints, everything a tag option NAMES and the rendering resolves through its namespace
+    differs between the threads (comparison functions of sort="key/FUNC", batch parameters by name, the method fmt= names on
+    the value, callables, exception classes, sub-templates, names only some threads have, client object / mapping / template
+    defaults, items the guards of a guarded template class refuse, the tree and its state cookie); threads 1 and 3 are alike in
+    kind and differ in data.
+(d) Systematic two-pre-emption schedules, chosen from a line-by-line profile of each thread's rendering alone (function `directed`):
+    for one-tag templates every pair (A stopped, B stopped) with both threads inside frames that hold the same shared object
+    (compiled tag, expression, section list, option dict, template), on a template rendered before with other data, rendered
+    before with every kind of data, and only compiled; single pre-emptions at every such line for racing first renderings;
+    3 threads; a sample of the same for the long templates; and, around every line the profile saw changing shared state,
+    A stopped 0..4 lines before / after it and B all around its own.
+Oracle: each thread's result == the result of rendering alone on a NEW template object (also for the schedule without any
+pre-emption: the threads one after the other).
 Correspondence: the shared-access events of every scheduled run (test / acquire / writeBlocks / writeFlag / release /
 readBlocks / finish, in the order they took effect) replayed on the Lean model (op "conc"): every event must be the model
 thread's next step and the model's results must be the solo results.
 """
 import json
+import operator
 import os
 import re
+import sys
 import types
 
 import common
@@ -35,6 +52,73 @@ TEMPLATES = {
     'with-only': '<dtml-with o only>[<dtml-var name>/<dtml-var name>]</dtml-with><dtml-with o mapping_ only><dtml-var name></dtml-with>'.replace(' mapping_', ''),
     'try-classes': '<dtml-try><dtml-if flag><dtml-raise KeyError><dtml-var tag></dtml-raise><dtml-else><dtml-raise ValueError>v<dtml-var tag>'
                    '</dtml-raise></dtml-if><dtml-except ValueError>V:<dtml-var error_value><dtml-except KeyError>K:<dtml-var error_value></dtml-try>',
+    # ---- attribute TEXT that is constant, MEANING that is per rendering: names inside tag options that are resolved through the
+    #      namespace of the rendering (comparison functions of sort="key/FUNC", batch parameters given by name, the method a fmt= names
+    #      on the value, missing / null / else branches taken by some threads only, callables, exception classes, sub-templates)
+    'sort-func': '<dtml-in seq sort="name/cmpf"><dtml-var name></dtml-in>|<dtml-in mseq mapping sort="grp/cmpg,name/cmpf/desc">'
+                 '<dtml-var name></dtml-in>|<dtml-in seq5 sort="rank/cmpf/desc" size=sz start=st orphan=0><dtml-var name></dtml-in>',
+    'batch-names': '<dtml-in seq5 size=sz start=st orphan=orph overlap=ov><dtml-if previous-sequence>[<dtml-var previous-sequence-size>]'
+                   '</dtml-if><dtml-var name><dtml-if next-sequence>[<dtml-var next-sequence-size>]</dtml-if></dtml-in>|<dtml-in seq5 '
+                   'size=sz start=st previous>P<dtml-var previous-sequence-start-number></dtml-in>|<dtml-in seq5 size=sz start=st next>'
+                   'N<dtml-var next-sequence-start-number></dtml-in>|<dtml-in seq start=st end=en><dtml-var name></dtml-in>',
+    'in-options': '<dtml-in pairs prefix=p><dtml-var p_key>=<dtml-var p_item>,</dtml-in>|<dtml-in seq2 no_push_item reverse>'
+                  '<dtml-var expr="_[\'sequence-item\'].name"></dtml-in>|<dtml-in empty><dtml-var name><dtml-else>none<dtml-var tag>'
+                  '</dtml-in>',
+    'in-expr-mapping': '<dtml-in expr="seq5[:sz]"><dtml-var sequence-number><dtml-var sequence-roman>:<dtml-var expr="name + tag">;'
+                       '</dtml-in>|<dtml-in mseq mapping><dtml-var name><dtml-var sequence-var-grp></dtml-in>',
+    'var-options': '<dtml-var val fmt=show>|<dtml-var opt missing="M">|<dtml-var nul null="N">|<dtml-var amount fmt=dollars-and-cents>'
+                   '|<dtml-var fn>|<dtml-var long size=8 etc="~">|<dtml-var tag url_quote>|<dtml-var expr="fn() + tag" lower>|'
+                   '<dtml-if opt>has<dtml-var opt><dtml-elif nul>nul<dtml-var nul><dtml-else>neither</dtml-if>|<dtml-unless opt>'
+                   'no-opt</dtml-unless>|<dtml-var sub2>',
+    'try-else-finally': '<dtml-try><dtml-call boom>calm<dtml-var tag><dtml-except KeyError>K<dtml-var error_type><dtml-except>O'
+                        '<dtml-var error_type><dtml-else>E<dtml-var tag></dtml-try>|<dtml-try><dtml-raise expr="errt">m<dtml-var tag>'
+                        '</dtml-raise><dtml-except LookupError>L<dtml-var error_value><dtml-except ValueError>V<dtml-var error_value>'
+                        '</dtml-try>|<dtml-try><dtml-try><dtml-var tag><dtml-call boom><dtml-finally>F<dtml-var tag></dtml-try>'
+                        '<dtml-except>X<dtml-var error_type></dtml-try><dtml-comment>c<dtml-var tag></dtml-comment><dtml-if "num > 9">'
+                        '<dtml-return expr="\'R\' + tag"></dtml-if>end<dtml-var tag>',
+    # ---- the other ways a caller hands data in: a client object, a mapping, defaults given when the template was made
+    'client-mapping': '<dtml-var cattr>|<dtml-var mkey>|<dtml-var dflt>|<dtml-var dflt2>|<dtml-var tag>|<dtml-with o><dtml-var name>'
+                      '<dtml-var cattr></dtml-with><dtml-let x=cattr y="mkey + dflt"><dtml-var x><dtml-var y></dtml-let><dtml-var sub>',
+    # ---- a template class with guards: expressions run as restricted code, attributes and items go through the guards
+    'guarded': '<dtml-var expr="o.name + tag">|<dtml-in gseq skip_unauthorized><dtml-var name></dtml-in>|<dtml-with o><dtml-var name>'
+               '</dtml-with>|<dtml-var expr="seq[0].rank + num">|<dtml-let z="o.name"><dtml-var z></dtml-let>',
+    # ---- the block tag that lives next to the package
+    'tree': '<dtml-tree root sort=nid>[[<dtml-var nid><dtml-var tag>]]</dtml-tree>',
+}
+CALL = {'client-mapping': 'client'}
+GUARDED = ('guarded', 'u-guarded-expr', 'u-guarded-in')
+DEFAULTS = {'client-mapping': ({'dflt': 'D0', 'dflt2': 'D2', 'mkey': 'hidden'}, {'dflt': 'D1'})}
+OLD = ('sort_expr', 'reverse_expr', 'batch', 'if-let-with', 'try-raise', 'var-formats', 'sub', 'with-only', 'try-classes')
+
+# one tag each: small enough for the systematic two-pre-emption family "both threads inside the same compiled object"
+UNITS = {
+    'u-var-expr': '<dtml-var expr="tag + tag">',
+    'u-var-fmt': '<dtml-var tag fmt="x%sx" upper>',
+    'u-var-method': '<dtml-var val fmt=show>',
+    'u-var-missing-null': '<dtml-var opt missing="M"><dtml-var nul null="N">',
+    'u-call': '<dtml-call "fn()"><dtml-var fn>',
+    'u-if': '<dtml-if "flag">A<dtml-var tag><dtml-elif "num > 8">B<dtml-else>C</dtml-if>',
+    'u-if-name': '<dtml-if opt>A<dtml-var opt><dtml-elif nul>B<dtml-else>C</dtml-if>',
+    'u-unless': '<dtml-unless flag>u<dtml-var tag></dtml-unless>',
+    'u-in': '<dtml-in seq2><dtml-var name></dtml-in>',
+    'u-in-expr': '<dtml-in expr="seq[:2]"><dtml-var expr="name + tag"></dtml-in>',
+    'u-in-sort-expr': '<dtml-in seq2 sort_expr="key"><dtml-var name></dtml-in>',
+    'u-in-reverse-expr': '<dtml-in seq2 reverse_expr="rev"><dtml-var name></dtml-in>',
+    'u-in-sort-func': '<dtml-in seq2 sort="name/cmpf"><dtml-var name></dtml-in>',
+    'u-in-batch': '<dtml-in seq size=sz start=st orphan=0><dtml-var name></dtml-in>',
+    'u-in-else': '<dtml-in empty><dtml-var name><dtml-else>none</dtml-in>',
+    'u-with': '<dtml-with o><dtml-var name></dtml-with>',
+    'u-with-only': '<dtml-with o only><dtml-var name></dtml-with>',
+    'u-with-expr': '<dtml-with expr="o" mapping_><dtml-var name></dtml-with>'.replace(' mapping_', ''),
+    'u-let': '<dtml-let z="tag + tag" y=tag><dtml-var z><dtml-var y></dtml-let>',
+    'u-try': '<dtml-try><dtml-call boom>ok<dtml-except KeyError>K<dtml-var error_type><dtml-var error_value><dtml-except>O<dtml-var error_value><dtml-else>E<dtml-var tag></dtml-try>',
+    'u-try-finally': '<dtml-try><dtml-try><dtml-call boom><dtml-finally>F<dtml-var tag></dtml-try><dtml-except>X<dtml-var error_value></dtml-try>',
+    'u-raise': '<dtml-try><dtml-raise expr="errt">m<dtml-var tag></dtml-raise><dtml-except>X<dtml-var error_type><dtml-var error_value></dtml-try>',
+    'u-return': 'a<dtml-if flag><dtml-return expr="\'R\' + tag"></dtml-if>b',
+    'u-sub': '<dtml-var sub>',
+    'u-tree': '<dtml-tree root>[[<dtml-var nid>]]</dtml-tree>',
+    'u-guarded-expr': '<dtml-var expr="o.name + tag">',
+    'u-guarded-in': '<dtml-in gseq skip_unauthorized><dtml-var name></dtml-in>',
 }
 
 
@@ -43,14 +127,167 @@ class O:
         self.__dict__.update(kw)
 
 
+class ShowA:
+    def __init__(self, i):
+        self.i = i
+
+    def show(self):
+        return 'A<%d>' % self.i
+
+
+class ShowB(ShowA):
+    def show(self):
+        return 'B{%d}' % self.i
+
+
+class Node:
+    def __init__(self, nid, kids=()):
+        self.nid = nid
+        self.kids = list(kids)
+
+    def tpValues(self):
+        return self.kids
+
+    def tpId(self):
+        return self.nid
+
+    def tpURL(self):
+        return 'u'
+
+
+class Resp:
+    def __init__(self):
+        self.cookies = {}
+
+    def setCookie(self, k, v, **kw):
+        self.cookies[k] = v
+
+
+def _cmp(a, b):
+    return (a > b) - (a < b)
+
+
+def cmp_asc(a, b):
+    return _cmp(a, b)
+
+
+def cmp_desc(a, b):
+    return _cmp(b, a)
+
+
+def cmp_odd(a, b):
+    return _cmp((ord(str(a)[0]) % 2, a), (ord(str(b)[0]) % 2, b))
+
+
 def namespace(i, sub):
-    return dict(seq=[O(name='b', rank=1 + i), O(name='a', rank=3), O(name='c', rank=2 - i)], key=['name', 'rank', 'name/cmp/desc'][i % 3],
-                rev=i % 2, st=1 + (i % 2), flag=i % 2, tag='T%d' % i, o=O(name='o%d' % i), num=7 + i, sub=sub)
+    """the values thread i hands in.  Everything a template can look up by name differs between the threads of a run."""
+    def fn():
+        return 'Fn%d' % i
+
+    # threads 1 and 3 are alike in kind (same branches, same classes, same functions) and differ in data; 0 and 2 differ from them and
+    # from each other
+    errt = (ValueError, KeyError, IndexError, KeyError)[i % 4]
+
+    def boom():
+        if i % 4 != 2:
+            raise errt('boom%d' % i)
+        return 'calm'
+    ns = dict(seq=[O(name='b', rank=1 + i, grp=i % 2), O(name='a', rank=3, grp=1), O(name='c', rank=2 - i, grp=0)],
+              key=['name', 'rank', 'name/cmp/desc'][i % 3],
+              rev=i % 2, st=1 + (i % 2), flag=i % 2, tag='T%d' % i, o=O(name='o%d' % i), num=7 + i, sub=sub,
+              # ---- names that tag options resolve through the namespace
+              cmpf=(cmp_asc, cmp_desc, cmp_odd, cmp_desc)[i % 4], cmpg=(cmp_desc, cmp_asc)[i % 2],
+              sz=2 + (i % 2), orph=i % 2, ov=(i + 1) % 2, en=3 + (i % 2),
+              seq2=[O(name='q%d' % i, rank=2), O(name='p%d' % (3 - i), rank=1 + i)],
+              seq5=[O(name=n + str(i), rank=(7 * k + 3 * i) % 5) for k, n in enumerate('edcba')],
+              mseq=[{'name': 'm' + n, 'grp': (k + i) % 2} for k, n in enumerate('xay')],
+              pairs=[('k%d' % i, 'v%d' % i), ('j', 'w%d' % (i + 1))], empty=[] if i % 2 else [O(name='e%d' % i)],
+              gseq=[O(name='g%d' % i, deny=i % 2 == 0), O(name='h', deny=False), O(name='k%d' % i, deny=i % 2 == 1)],
+              val=(ShowA, ShowB)[i % 2](i), nul=(None, 'x', '', 0)[i % 4], amount=1234.5 + i, fn=fn, boom=boom,
+              long='lorem ipsum %d dolor' % i if i % 2 else 'short%d' % i, errt=errt,
+              sub2=sub if i % 2 else fn,
+              # ---- dtml-tree: its own per-render state comes in through the namespace as well
+              root=Node('r', [Node('a%d' % i, [Node('a1')]), Node('b')]),
+              URL='http://host/app/t%d' % i, RESPONSE=Resp())
+    if i % 2 == 0:
+        ns['opt'] = 'opt%d' % i
+        ns['expand_all'] = 1
+    elif i % 4 == 1:
+        from TreeDisplay.TreeTag import encode_seq
+        ns['tree-s'] = encode_seq((['r', [['a%d' % i, []]]],))
+    return ns
+
+
+_GUARDED = []
+
+
+def guarded_class():
+    if not _GUARDED:
+        from DocumentTemplate import HTML
+        from zExceptions import Unauthorized
+        marker = object()
+
+        class Guarded(HTML):
+            def guarded_getattr(self, inst, name, default=marker):
+                if name == 'deny':
+                    raise Unauthorized(name)
+                if default is marker:
+                    return getattr(inst, name)
+                return getattr(inst, name, default)
+
+            def guarded_getitem(self, ob, index):
+                v = ob[index]
+                if getattr(v, 'deny', False):
+                    raise Unauthorized('item')
+                return v
+        _GUARDED.append(Guarded)
+    return _GUARDED[0]
+
+
+def make_template(name, src):
+    from DocumentTemplate import HTML
+    if name in GUARDED:
+        return guarded_class()(src)
+    d = DEFAULTS.get(name)
+    if d:
+        return HTML(src, dict(d[0]), **d[1])
+    return HTML(src)
+
+
+def invoke(t, name, i, sub):
+    """thread i's rendering: the template's output plus what the rendering handed back through the caller's own objects"""
+    ns = namespace(i, sub)
+    if CALL.get(name) == 'client':
+        out = t(O(cattr='c%d' % i, name='cn%d' % i), {'mkey': 'm%d' % i, 'tag': 'mapping-tag'}, **ns)
+    else:
+        out = t(**ns)
+    ck = ns['RESPONSE'].cookies
+    if ck:
+        out = '%s cookies=%s' % (out, sorted(ck.items()))
+    return out
 
 
 def pkg_dir():
     import DocumentTemplate
     return os.path.dirname(DocumentTemplate.__file__) + os.sep
+
+
+_ROOT = []
+
+
+def trace_root():
+    """the directory whose source lines are yield points: the package — together with TreeDisplay (the dtml-tree tag, registered by the
+    package's __init__) when the two are the only packages of their directory"""
+    if not _ROOT:
+        p = pkg_dir()
+        parent = os.path.dirname(p.rstrip(os.sep))
+        try:
+            names = {n for n in os.listdir(parent) if os.path.isdir(os.path.join(parent, n)) and n[:1] not in '._'
+                     and not n.endswith(('.egg-info', '.dist-info'))}
+        except OSError:
+            names = set()
+        _ROOT.append(parent + os.sep if 'TreeDisplay' in names and names <= {'DocumentTemplate', 'TreeDisplay'} else p)
+    return _ROOT[0]
 
 
 def find_marks():
@@ -68,6 +305,280 @@ def find_marks():
         for h in hits:
             marks[(fn, h)] = kind
     return marks, missing
+
+
+# --------------------------------------------------------------------------- what one rendering touches, line by line
+
+ATOMS = frozenset([str, bytes, int, float, bool, type(None), complex])
+
+
+def _val(v):
+    return v if type(v) in ATOMS else id(v)
+
+
+_is = operator.is_
+
+
+class Shared:
+    """Everything all rendering threads can reach: the template, its compiled objects, the classes of those objects, the modules,
+    classes and functions (default arguments, closures) of the package.  `check()` says which of these objects differ from the last
+    look — called before every source line of a rendering it finds the lines that write shared state, also when the line after
+    next puts the old value back."""
+
+    def __init__(self, roots):
+        self.root = trace_root()
+        self._mine = {}
+        mods = []
+        for mname, mod in sorted(sys.modules.items()):
+            f = getattr(mod, '__file__', None) or ''
+            if f.startswith(self.root) and '/tests' not in f[len(self.root):] and not f.endswith('tests.py'):
+                mods.append(mod)
+        self.roots = list(roots) + mods
+        self.serial = {}          # id -> number in order of first sight (the same for every new object of the same template)
+        self.collect()
+
+    def mine(self, o):
+        mn = getattr(o, '__module__', None)
+        if not isinstance(mn, str):
+            return False
+        r = self._mine.get(mn)
+        if r is None:
+            f = getattr(sys.modules.get(mn), '__file__', None) or ''
+            r = self._mine[mn] = f.startswith(self.root)
+        return r
+
+    def kids(self, o):
+        """objects whose state belongs to o's; None: o holds no state of the package"""
+        if isinstance(o, dict):
+            return list(o.values()) + [k for k in o if type(k) not in ATOMS]
+        if isinstance(o, (list, tuple, set, frozenset)):
+            return list(o)
+        if isinstance(o, types.MethodType):
+            return [o.__self__, o.__func__]
+        if isinstance(o, types.ModuleType):
+            f = getattr(o, '__file__', None) or ''
+            return [v for k, v in vars(o).items() if k[:2] != '__' and not isinstance(v, types.ModuleType)] if f.startswith(self.root) else None
+        if isinstance(o, type):
+            return list(vars(o).values()) if self.mine(o) else None
+        if isinstance(o, types.FunctionType):
+            if not self.mine(o):
+                return None
+            ks = list(o.__defaults__ or ()) + list((o.__kwdefaults__ or {}).values())
+            for c in o.__closure__ or ():
+                try:
+                    ks.append(c.cell_contents)
+                except ValueError:
+                    pass
+            return ks
+        if isinstance(o, (staticmethod, classmethod)):
+            return [o.__func__]
+        if isinstance(o, property):
+            return [o.fget, o.fset, o.fdel]
+        d = getattr(o, '__dict__', None)
+        if isinstance(d, dict):
+            return list(d.values()) + [type(o)]
+        return None
+
+    def view(self, o):
+        """(names, values) of the state o itself holds; None: nothing that can change"""
+        if isinstance(o, dict):
+            return (list(o), list(o.values()))
+        if isinstance(o, list):
+            return (None, list(o))
+        if isinstance(o, set):
+            return (None, sorted(o, key=id))
+        if isinstance(o, (types.ModuleType, type)):
+            d = vars(o)
+            return (list(d), list(d.values()))
+        if isinstance(o, types.FunctionType):
+            if not (o.__defaults__ or o.__closure__ or o.__kwdefaults__):
+                return None
+            vs = list(o.__defaults__ or ()) + list((o.__kwdefaults__ or {}).values())
+            for c in o.__closure__ or ():
+                try:
+                    vs.append(c.cell_contents)
+                except ValueError:
+                    vs.append(None)
+            return (None, vs)
+        if isinstance(o, (tuple, frozenset, types.MethodType, staticmethod, classmethod, property)):
+            return None
+        d = o.__dict__
+        return (list(d), list(d.values()))
+
+    def collect(self):
+        seen, order = {}, []
+        stack = list(reversed(self.roots))
+        while stack:
+            o = stack.pop()
+            if type(o) in ATOMS or id(o) in seen:
+                continue
+            ks = self.kids(o)
+            if ks is None:
+                continue
+            seen[id(o)] = o
+            self.serial.setdefault(id(o), len(self.serial))
+            if self.view(o) is not None:
+                order.append(o)
+            stack.extend(reversed(ks))
+        self.objs = order
+        self.views = [self.view(o) for o in order]          # the views keep the values alive: an id is never used twice
+        # what a running frame can hold: compiled objects (tags, expressions, templates) and the containers hanging off them
+        self.holdable = {id(o) for o in order if not isinstance(o, (types.ModuleType, type, types.FunctionType))}
+        # compiled objects: what hangs off the block list of a template (the rest — the template object itself, its defaults, the
+        # package's own tables — is held by the same code whatever the template says)
+        comp, stack = set(), [getattr(x, '_v_blocks', None) for x in self.roots if getattr(x, 'isDocTemp', 0) and not isinstance(x, type)]
+        while stack:
+            o = stack.pop()
+            if id(o) in comp or id(o) not in seen or isinstance(o, (types.ModuleType, type, types.FunctionType)):
+                continue
+            comp.add(id(o))
+            stack.extend(self.kids(o) or ())
+        self.generic = {self.serial[i] for i in seen if i not in comp}
+
+    def label(self, o, old, new):
+        if isinstance(o, types.ModuleType):
+            tn = 'module ' + o.__name__
+        elif isinstance(o, type):
+            tn = 'class ' + o.__name__
+        elif isinstance(o, types.FunctionType):
+            return 'defaults / closure of function ' + o.__qualname__
+        else:
+            tn = type(o).__name__
+        if old[0] is not None and new[0] is not None:
+            a, b = dict(zip(old[0], map(_val, old[1]))), dict(zip(new[0], map(_val, new[1])))
+            ch = sorted(str(k)[:30] for k in set(a) | set(b) if a.get(k, '<absent>') != b.get(k, '<absent>'))
+            return '%s: %s' % (tn, ', '.join(ch[:6]))
+        return '%s: items' % tn
+
+    def check(self):
+        """[(serial, label)] of the objects that changed since the last look"""
+        views, view, changed = self.views, self.view, None
+        for n, o in enumerate(self.objs):
+            v = view(o)
+            w = views[n]
+            if len(v[1]) == len(w[1]) and v[0] == w[0] and all(map(_is, v[1], w[1])):
+                continue
+            views[n] = v
+            if v[0] == w[0] and list(map(_val, v[1])) == list(map(_val, w[1])):
+                continue            # an equal value was stored
+            if changed is None:
+                changed = []
+            changed.append((self.serial[id(o)], self.label(o, w, v)))
+        if changed:
+            self.collect()          # what the write attached is shared from now on
+        return changed
+
+
+class Profile:
+    """one rendering, alone, line by line (the yield points are numbered as harness/sched.py numbers them)"""
+
+    def __init__(self):
+        self.steps = []      # per yield point: (file, line, serials of the compiled objects the running frame holds)
+        self.writes = []     # (k, [(serial, label)]): the line at yield point k changed these shared objects
+        self.result = None
+
+
+def prepare(name, src, cooked, warm):
+    from DocumentTemplate import HTML
+    sub = HTML('[sub <dtml-var tag>]')
+    sub.cook()
+    t = make_template(name, src)
+    if cooked:
+        t.cook()
+    for w in (warm or ()):
+        try:
+            invoke(t, name, w, sub)
+        except Exception:  # noqa
+            pass
+    return t, sub
+
+
+def profile(name, src, i, warm):
+    import DocumentTemplate.DT_String as DTS
+    t, sub = prepare(name, src, True, warm)
+    sh = Shared([t, sub, DTS.String.commands])
+    root = sh.root
+    pr = Profile()
+    steps, writes, serial = pr.steps, pr.writes, sh.serial
+
+    def tracer(frame, event, arg):
+        fn = frame.f_code.co_filename
+        if not fn.startswith(root) or '/tests/' in fn:
+            return None
+
+        def local(frame, event, arg):
+            if event == 'line':
+                ch = sh.check()
+                if ch:
+                    writes.append((len(steps), ch))
+                hold = sh.holdable
+                steps.append((fn, frame.f_lineno, frozenset(serial[id(v)] for v in frame.f_locals.values() if id(v) in hold)))
+            return local
+        return local
+
+    def body():
+        return invoke(t, name, i, sub)
+    sys.settrace(tracer)
+    try:
+        try:
+            pr.result = ('ok', body())
+        except Exception as e:  # noqa
+            pr.result = ('raise', '%s: %s' % (type(e).__name__, str(e)[:200]))
+    finally:
+        sys.settrace(None)
+    ch = sh.check()
+    if ch:
+        writes.append((len(steps), ch))
+    pr.generic = sh.generic
+    pr.where = {k: '%s:%d' % (os.path.basename(steps[k - 1][0]), steps[k - 1][1]) for k, _ in writes if 0 < k <= len(steps)}
+    return pr
+
+
+def same_object_pairs(pa, pb, r, cap, tcap):
+    """(k1, k2) such that thread A is stopped right before or right after a line of a frame holding shared object X (a compiled tag, an
+    expression, a list or dict hanging off them, the template) and thread B is stopped right before or right after a line of a frame
+    holding the same X; at most `cap` per object (drawn with r beyond); `tcap` for what does not hang off the block list (the template
+    object, its defaults, the package's tables: the frames holding those run the same code in every template)"""
+    def by_object(pr):
+        d = {}
+        for k, (_, _, held) in enumerate(pr.steps, 1):
+            for x in held:
+                d.setdefault(x, set()).update((k - 1, k))
+        return d
+    da, db = by_object(pa), by_object(pb)
+    out, seen = [], set()
+    for x in sorted(da):
+        if x not in db:
+            continue
+        cand = [(k1, k2) for k1 in sorted(da[x]) for k2 in sorted(db[x]) if (k1, k2) not in seen]
+        c = cap if x not in pa.generic else tcap
+        if len(cand) > c:
+            cand = r.sample(cand, c)
+        seen.update(cand)
+        out += cand
+    return out
+
+
+def around_write_pairs(pa, pb, r, cap):
+    """(k1, k2): thread A stopped 0..4 lines before / right after a line that changes shared state, thread B stopped around its own
+    shared writes, at the lines of frames holding an object A writes, and at every 9th line besides"""
+    if not pa.writes:
+        return []
+    na, nb = len(pa.steps), len(pb.steps)
+    ka, written = set(), set()
+    for j, ch in pa.writes:
+        ka.update(k for k in range(j - 5, j + 1) if 0 <= k <= na)
+        written.update(x for x, _ in ch)
+    kb = set(range(0, nb + 1, 9))
+    for j, ch in pb.writes:
+        kb.update(k for k in range(j - 6, j + 9) if 0 <= k <= nb)
+    for k, (_, _, held) in enumerate(pb.steps, 1):
+        if held & written:
+            kb.update((k - 1, k))
+    cand = [(k1, k2) for k1 in sorted(ka) for k2 in sorted(kb)]
+    if len(cand) > cap:
+        cand = r.sample(cand, cap)
+    return cand
 
 
 # --------------------------------------------------------------------------- (a) shared-write monitor
@@ -124,16 +635,19 @@ def monitor(res):
     import DocumentTemplate.DT_String as DTS
     sub = HTML('[sub <dtml-var tag>]')
     cook_writes = set()
-    for name, src in TEMPLATES.items():
-        t = HTML(src)
+    for name, src in list(TEMPLATES.items()) + list(UNITS.items()):
+        t = make_template(name, src)
         roots = [t, DTS.String.commands, sub]
         s0 = snapshot(roots)
-        t(**namespace(0, sub))
+        invoke(t, name, 0, sub)
         s1 = snapshot(roots)
         for w in snap_diff(s0, s1):
             cook_writes.add(w)
         for i in (1, 2, 3, 0, 2):
-            t(**namespace(i, sub))
+            try:
+                invoke(t, name, i, sub)
+            except Exception:  # noqa
+                pass
         s2 = snapshot(roots)
         res.evaluations += 1
         d = snap_diff(s1, s2)
@@ -150,46 +664,42 @@ class Runner:
     def __init__(self, res, have_driver):
         self.res = res
         self.have_driver = have_driver
-        self.pkg = pkg_dir()
+        self.pkg = trace_root()
         self.marks, self.missing = find_marks()
         self.reqs = []
         self.req_meta = []
+        self._solo = {}
 
-    def solo(self, src, i):
-        from DocumentTemplate import HTML
-        sub = HTML('[sub <dtml-var tag>]')
-        try:
-            return ('ok', HTML(src)(**namespace(i, sub)))
-        except Exception as e:  # noqa
-            return ('raise', '%s: %s' % (type(e).__name__, str(e)[:200]))
+    def solo(self, name, src, i):
+        """what thread i obtains alone: a NEW template object, rendered once, nobody else around"""
+        key = (name, src, i)
+        if key not in self._solo:
+            from DocumentTemplate import HTML
+            sub = HTML('[sub <dtml-var tag>]')
+            try:
+                self._solo[key] = ('ok', invoke(make_template(name, src), name, i, sub))
+            except Exception as e:  # noqa
+                self._solo[key] = ('raise', '%s: %s' % (type(e).__name__, str(e)[:200]))
+        return self._solo[key]
 
     def run(self, name, src, cooked, nthreads, script, label, idx=None, warm=None):
         """idx: which namespace each thread uses (default 0, 1, …); warm: namespaces rendered (alone) before the threads
         start, so that anything an earlier rendering left on the compiled tags is there"""
-        from DocumentTemplate import HTML
-        sub = HTML('[sub <dtml-var tag>]')
-        sub.cook()
-        t = HTML(src)
-        if cooked:
-            t.cook()
-        for w in (warm or ()):
-            try:
-                t(**namespace(w, sub))
-            except Exception:  # noqa
-                pass
+        t, sub = prepare(name, src, cooked, warm)
         idx = list(idx) if idx is not None else list(range(nthreads))
-        bodies = [(lambda i=i: t(**namespace(i, sub))) for i in idx]
+        bodies = [(lambda i=i: invoke(t, name, i, sub)) for i in idx]
         results, s = sched.run_threads(bodies, script, self.marks, self.pkg, mark_self=t)
         self.res.evaluations += 1
         self.res.count('schedule=' + label)
         bad = []
         for ti, (i, r) in enumerate(zip(idx, results)):
-            want = self.solo(src, i)
+            want = self.solo(name, src, i)
             if r != want:
                 bad.append('thread %d obtained %r, alone it obtains %r' % (ti, r, want))
         if bad:
             self.res.oracle_fail.append({'case': {'template': name, 'source': src, 'compiled_before': cooked, 'threads': nthreads,
                                                   'namespaces': idx, 'rendered_before_with': list(warm or ()),
+                                                  'how_called': CALL.get(name, 'keyword arguments: namespace(i)'),
                                                   'schedule': [list(x) if not isinstance(x[1], tuple) else [x[0], list(x[1])] for x in script],
                                                   'family': label},
                                          'what': '; '.join(bad)})
@@ -225,30 +735,62 @@ class Runner:
                                                    m['unexpected'][:3] or m['results'])})
 
 
+def source_of(name):
+    return TEMPLATES[name] if name in TEMPLATES else UNITS[name]
+
+
+def pack(res, rn, extra=None):
+    metas = [(m[0], m[1], m[2], None, m[4], m[5]) for m in rn.req_meta]
+    out = {'evaluations': res.evaluations, 'dist': res.dist, 'oracle_fail': res.oracle_fail, 'nt': list(res.nontrivial),
+           'reqs': rn.reqs, 'metas': metas, 'missing': rn.missing, 'corr_mismatch': res.corr_mismatch,
+           'harness_errors': res.harness_errors, 'extra': extra or {}}
+    return out
+
+
 def explore_one(args):
-    """everything for one template, in a worker process; returns plain data"""
-    name, tier, seed, do_race = args
+    """the line-by-line schedules of one template (or one part of them), in a worker process; returns plain data"""
+    name, tier, seed, do_race, parts, shard, nshards = args
     import random
     r = random.Random(seed)
     res = common.Result('C18')
     rn = Runner(res, False)
     src = TEMPLATES[name]
+    count = [0]
+
+    def go(*a, **kw):
+        # the schedules of one part are dealt out to `nshards` worker processes
+        count[0] += 1
+        if count[0] % nshards == shard:
+            rn.run(*a, **kw)
     # compiled template: every single pre-emption, both orders
     n0 = rn.steps_of(name, src, True)
     res.nt(('steps', name, n0))
     stride = 1 if tier == 'thorough' or n0 <= 150 else 2
-    for k in range(0, n0 + 1, stride):
-        rn.run(name, src, True, 2, [(0, k), (1, sched.INF), (0, sched.INF)], 'compiled-1-preemption')
-        rn.run(name, src, True, 2, [(1, k), (0, sched.INF), (1, sched.INF)], 'compiled-1-preemption')
+    # the templates added for their inputs are long (a loop item costs about 200 lines): a sweep of about 75 positions here — line
+    # by line their tags get the systematic families of `directed`
+    estride = 1 if tier == 'thorough' or name in OLD else max(4, n0 // 75)
+    stride = stride if name in OLD else estride
+    if 'compiled' in parts:
+        for k in range(0, n0 + 1, stride):
+            go(name, src, True, 2, [(0, k), (1, sched.INF), (0, sched.INF)], 'compiled-1-preemption')
+            go(name, src, True, 2, [(1, k), (0, sched.INF), (1, sched.INF)], 'compiled-1-preemption')
     for _ in range(40 if tier == 'quick' else 600):
         k1, k2 = r.randint(0, n0), r.randint(0, n0)
-        rn.run(name, src, True, 2, [(0, k1), (1, k2), (0, sched.INF), (1, sched.INF)], 'compiled-2-preemptions')
+        if 'compiled' in parts:
+            go(name, src, True, 2, [(0, k1), (1, k2), (0, sched.INF), (1, sched.INF)], 'compiled-2-preemptions')
     # state an EARLIER rendering left on the compiled tags: threads with like inputs (1, 3) after a rendering with unlike ones
-    for k in range(0, n0 + 1):
-        rn.run(name, src, True, 2, [(0, k), (1, sched.INF), (0, sched.INF)], 'after-earlier-render-1-preemption', idx=(1, 3), warm=(0,))
-        if k % stride == 0:
-            rn.run(name, src, True, 2, [(1, k), (0, sched.INF), (1, sched.INF)], 'after-earlier-render-1-preemption', idx=(3, 1), warm=(2,))
-    if do_race:
+    if 'earlier' in parts:
+        for k in range(0, n0 + 1, estride):
+            go(name, src, True, 2, [(0, k), (1, sched.INF), (0, sched.INF)], 'after-earlier-render-1-preemption', idx=(1, 3), warm=(0,))
+            if k % stride == 0 and name in OLD:
+                go(name, src, True, 2, [(1, k), (0, sched.INF), (1, sched.INF)], 'after-earlier-render-1-preemption', idx=(3, 1), warm=(2,))
+        # three threads on the compiled template, two of them stopped half-way
+        r3 = random.Random(seed + 3)
+        for _ in range(16 if tier == 'quick' else 300):
+            k1, k2 = r3.randint(0, n0), r3.randint(0, n0)
+            go(name, src, True, 3, [(0, k1), (1, k2), (2, sched.INF), (1, sched.INF), (0, sched.INF)], 'compiled-3-threads',
+               idx=(0, 1, 2) if k1 % 2 else (1, 3, 2), warm=(3,) if k2 % 2 else ())
+    if do_race and 'race' in parts:
         n0 = rn.steps_of(name, src, False)
         res.nt(('steps-uncompiled', name, n0))
         stride = 7 if tier == 'quick' else 1
@@ -271,41 +813,218 @@ def explore_one(args):
         for _ in range(30 if tier == 'quick' else 600):
             ks = [r.randint(0, n0) for _ in range(3)]
             rn.run(name, src, False, 2, [(0, ks[0]), (1, ks[1]), (0, ks[2]), (1, sched.INF), (0, sched.INF)], 'cook-random')
-    metas = [(m[0], m[1], m[2], None, m[4], m[5]) for m in rn.req_meta]
-    return {'evaluations': res.evaluations, 'dist': res.dist, 'oracle_fail': res.oracle_fail, 'nt': list(res.nontrivial),
-            'reqs': rn.reqs, 'metas': metas, 'missing': rn.missing}
+    extra = {}
+    if 'directed' in parts:
+        extra = directed(rn, res, name, src, tier, seed, unit=False)
+    return pack(res, rn, extra)
+
+
+def check_profile(rn, res, name, src, i, warm, pr):
+    """the profile's numbering of the yield points must be the scheduler's"""
+    t, sub = prepare(name, src, True, warm)
+    results, s = sched.run_threads([lambda: invoke(t, name, i, sub)], [(0, sched.INF)], rn.marks, rn.pkg, want_trace=True, mark_self=t)
+    mine = [(fn, ln) for fn, ln, _ in pr.steps]
+    theirs = [(fn, ln) for _, fn, ln in s.trace_log]
+    if mine != theirs and not pr.writes:
+        res.harness_errors.append('C18 profile of %s/namespace %d: %d yield points, the scheduler numbers %d' % (name, i, len(mine), len(theirs)))
+    return mine == theirs
+
+
+def directed(rn, res, name, src, tier, seed, unit, n0=0, shard=0, nshards=1):
+    """two-pre-emption schedules chosen from what the renderings touch:
+       same-object: both threads stopped inside frames that hold the same compiled object (tag, expression, template) — every such pair
+                    for the one-tag templates (up to a cap per object), a sample for the long ones;
+       around-write: if a line of a rendering of an already rendered template changes shared state (found by comparing all shared
+                    state before every line), thread A is stopped 0..4 lines before / after it and B all around its own.
+    Both on a template that was rendered before with other data, and (one-tag templates) on one that was only compiled."""
+    import random
+    r = random.Random(seed + 11)
+    quick = tier == 'quick'
+    count = [0]
+
+    def go(*a, **kw):
+        # the schedules are dealt out to `nshards` worker processes (each draws the same ones)
+        count[0] += 1
+        if count[0] % nshards == shard:
+            rn.run(*a, **kw)
+    # (namespaces of the two threads, rendered before with, share of the same-object pairs)
+    ALL = (0, 1, 2, 3)
+    if unit:
+        plans = [((1, 3), (0,), 1.0), ((0, 1), ALL, 0.2), ((0, 1), (), 0.15), ((3, 1), (0,), 0.1)]
+        cap, tcap = (300, 12) if quick else (1500, 200)
+        if quick:
+            cap = max(60, int(cap * min(1.0, 450.0 / max(1, n0))))      # a long one-tag template (loops, the tree) gets fewer per object
+    else:
+        plans = [((0, 1), ALL, 1.0)]
+        cap, tcap = (8, 2) if quick else (100, 20)
+    wcap = 700 if quick else 4000
+    profs, written = {}, {}
+    for idx, warm, share in plans:
+        for i in idx:
+            if (i, warm) not in profs:
+                pr = profs[(i, warm)] = profile(name, src, i, warm)
+                check_profile(rn, res, name, src, i, warm, pr)
+                res.count('profiled-renderings')
+                if pr.result != rn.solo(name, src, i) and warm:
+                    res.oracle_fail.append({'case': {'template': name, 'source': src, 'compiled_before': True, 'threads': 1 + len(warm),
+                                                     'namespaces': list(warm) + [i], 'rendered_before_with': [],
+                                                     'schedule': 'no pre-emption: each thread runs to its end before the next one starts',
+                                                     'family': 'one-after-the-other'},
+                                            'what': 'the last thread obtained %r, alone (new template) it obtains %r' % (
+                                                pr.result, rn.solo(name, src, i))})
+    # per-render shared writes: a rendering of a template that every kind of input has been through before must not change shared
+    # state, not even for a few lines
+    for i in (0, 1):
+        pr = profs[(i, ALL)]
+        for k, ch in pr.writes:
+            written.setdefault('%s  <- %s' % ('; '.join(sorted(lb for _, lb in ch)), pr.where.get(k, 'end')), i)
+    fails0 = len(res.oracle_fail)
+    for idx, warm, share in plans:
+        pa, pb = profs[(idx[0], warm)], profs[(idx[1], warm)]
+        pairs = same_object_pairs(pa, pb, r, cap, tcap)
+        if share < 1.0:
+            pairs = r.sample(pairs, int(len(pairs) * share))
+        for k1, k2 in pairs:
+            go(name, src, True, 2, [(0, k1), (1, k2), (0, sched.INF), (1, sched.INF)], 'same-object-2-preemptions', idx=idx, warm=warm)
+            if len(res.oracle_fail) - fails0 >= 12:
+                break
+        if len(res.oracle_fail) - fails0 >= 12:
+            break
+    if unit and () in [w for _, w, _ in plans]:
+        # first renderings of a template that was only compiled: one thread stopped at a line of a frame holding a compiled object,
+        # the other renders from start to end meanwhile
+        for a, b in ((0, 1), (1, 0)):
+            pa = profs[(a, ())]
+            ks = set()
+            for k, (_, _, held) in enumerate(pa.steps, 1):
+                if held - pa.generic:
+                    ks.update((k - 1, k))
+            ks = sorted(ks)
+            if quick and len(ks) > 120:
+                ks = sorted(r.sample(ks, 120))
+            for k in ks:
+                go(name, src, True, 2, [(0, k), (1, sched.INF), (0, sched.INF)], 'first-renderings-1-preemption-at-compiled-object',
+                   idx=(a, b), warm=())
+                if len(res.oracle_fail) - fails0 >= 36:
+                    break
+        # three threads, two of them stopped inside the same object
+        idx, warm, _ = plans[0]
+        pairs = same_object_pairs(profs[(idx[0], warm)], profs[(idx[1], warm)], r, max(8, cap // 12), 2)
+        for k1, k2 in pairs:
+            go(name, src, True, 3, [(0, k1), (1, k2), (2, sched.INF), (0, sched.INF), (1, sched.INF)], 'same-object-3-threads',
+               idx=idx + (2,), warm=warm)
+            if len(res.oracle_fail) - fails0 >= 40:
+                break
+    for idx, warm, share in plans:
+        pa, pb = profs[(idx[0], warm)], profs[(idx[1], warm)]
+        for k1, k2 in around_write_pairs(pa, pb, r, wcap):
+            go(name, src, True, 2, [(0, k1), (1, k2), (0, sched.INF), (1, sched.INF)], 'around-shared-write-2-preemptions', idx=idx, warm=warm)
+            if len(res.oracle_fail) - fails0 >= 24:
+                break
+    return {'per_render_writes': {name: written} if written and shard == 0 else {}}
+
+
+def explore_unit(args):
+    name, tier, seed, shard, nshards = args
+    res = common.Result('C18')
+    rn = Runner(res, False)
+    src = UNITS[name]
+    n0 = rn.steps_of(name, src, True)
+    res.nt(('steps', name, n0))
+    extra = directed(rn, res, name, src, tier, seed, unit=True, n0=n0, shard=shard, nshards=nshards)
+    return pack(res, rn, extra)
+
+
+def work(job):
+    return explore_unit(job[1:]) if job[0] == 'unit' else explore_one(job[1:])
+
+
+def make_jobs(tier, r):
+    names = list(TEMPLATES)
+    race = set(['sort_expr', 'if-let-with', 'var-formats', 'client-mapping'] if tier == 'quick' else names)
+    seeds = {n: r.randrange(10 ** 9) for n in names}
+    jobs = []
+    heavy = ('sub', 'batch', 'sort_expr', 'reverse_expr')          # long templates swept line by line: two worker processes each
+    for n in names:
+        for parts in (('compiled',), ('earlier',), ('race',), ('directed',)):
+            if parts == ('race',) and n not in race:
+                continue
+            nsh = 2 if n in heavy and parts[0] in ('compiled', 'earlier') and tier == 'quick' else 1
+            for sh in range(nsh):
+                jobs.append(('full', n, tier, seeds[n], n in race, parts, sh, nsh))
+    # the long jobs first
+    est = {'u-tree': 15, 'u-try-finally': 21, 'u-raise': 18, 'u-in-batch': 12, 'u-in-expr': 13, 'u-try': 14, 'u-in-sort-expr': 11,
+           'u-in-reverse-expr': 11, 'u-in-sort-func': 10, 'u-in': 16, 'u-let': 15, 'u-with-expr': 13, ('client-mapping', 'race'): 23,
+           ('sub', 'earlier'): 16, ('if-let-with', 'race'): 12, ('batch', 'earlier'): 12, ('sub', 'compiled'): 11}
+    split = ('u-tree', 'u-try-finally', 'u-raise', 'u-in-batch', 'u-in-expr', 'u-try', 'u-in-sort-expr', 'u-in-reverse-expr', 'u-in-sort-func')
+    for n in UNITS:
+        sd = r.randrange(10 ** 9)
+        nsh = 2 if n in split and tier == 'quick' else 1
+        jobs += [('unit', n, tier, sd, sh, nsh) for sh in range(nsh)]
+    jobs.sort(key=lambda j: -(est.get(j[1], 7) if j[0] == 'unit' else est.get((j[1], j[5][0]), {'directed': 4}.get(j[5][0], 8))))
+    return jobs
 
 
 def explore(res, tier, have_driver, r):
     import multiprocessing
-    names = list(TEMPLATES)
-    race = set(['sort_expr', 'if-let-with', 'var-formats'] if tier == 'quick' else names)
-    jobs = [(n, tier, r.randrange(10 ** 9), n in race) for n in names]
-    with multiprocessing.get_context('fork').Pool(min(len(jobs), 8)) as pool:
-        outs = pool.map(explore_one, jobs)
+    jobs = make_jobs(tier, r)
+    with multiprocessing.get_context('fork').Pool(min(len(jobs), max(8, min(16, os.cpu_count() or 8)))) as pool:
+        outs = pool.map(work, jobs, chunksize=1)
     rn = Runner(res, have_driver)
     if rn.missing:
         res.corr_mismatch.append({'case': {'file': 'DT_String.py'}, 'impl': rn.missing, 'model': 'test / writeBlocks / writeFlag / readBlocks',
                                   'diff': 'the shared accesses of String.__call__ / cook the model is tied to were not found in the '
                                           'source: ' + '; '.join(rn.missing)})
+    writes = {}
     for o in outs:
         res.evaluations += o['evaluations']
         for k, v in o['dist'].items():
             res.count(k, v)
         res.oracle_fail += o['oracle_fail']
+        res.corr_mismatch += o['corr_mismatch']
+        res.harness_errors += o['harness_errors']
         for x in o['nt']:
             res.nontrivial.add(x)
         rn.reqs += o['reqs']
         rn.req_meta += o['metas']
+        writes.update(o['extra'].get('per_render_writes', {}))
+    for name, w in sorted(writes.items()):
+        res.corr_mismatch.append({'case': {'template': name, 'source': source_of(name), 'rendered_before_with': [0, 1, 2, 3]},
+                                  'impl': sorted(w), 'model': [],
+                                  'diff': 'a line of a rendering of an already rendered template changed shared state (the model has no '
+                                          'per-render shared write; found by comparing all shared state before every line, so a value '
+                                          'that is put back later counts): ' + ' | '.join(sorted(w)[:6])})
+    res.extra['per_render_shared_writes_line_by_line'] = {k: sorted(v) for k, v in sorted(writes.items())}
     rn.flush_model()
 
 
 def run(res, tier, have_driver):
     r = common.rng('C18')
-    res.rule = ('7 templates (sort_expr, reverse_expr, batches, if/let/with, try/raise, var formats, sub-template); 2 threads with '
-                'different inputs: all single-pre-emption schedules on the compiled template (both orders) + random 2-pre-emption; on '
-                'the uncompiled template: strided single pre-emptions, pre-emptions 0..3 lines after each shared access, the 3-pre-emption '
-                'family around a second cook, 3 threads racing the cook, random; non-trivial = every scheduled run (distinct schedule)')
+    res.rule = ('%d templates: the 9 earlier ones (sort_expr, reverse_expr, batches, if/let/with, try/raise, var formats, sub-template, '
+                'with only, try classes) + sort="key/FUNC" with per-thread comparison functions (single, multi-key, mapping, batched), '
+                'batch parameters by name (size/start/end/orphan/overlap, previous/next), in options (prefix, no_push_item, reverse, '
+                'else branch; expr, mapping, sequence-var-), var options (fmt=method of per-thread classes, missing, null, special '
+                'format, size/etc, callables, if/elif/unless on names only some threads have), try else/finally + raise expr= + '
+                'return + comment + callables raising per-thread exception classes, client object + mapping + template defaults, a '
+                'template class with guards (restricted expressions, guarded attributes, items refused per thread under skip_unauthorized), '
+                'dtml-tree (yield points in TreeDisplay too; per-thread tree, state cookie handed back); every name a template looks '
+                'up differs between the threads, threads 1 and 3 alike in kind.  2 threads with different inputs: all single-'
+                'pre-emption schedules on the compiled template (both orders; a sweep of about 75 positions for the templates '
+                'added for their inputs) + random 2-pre-emption; after an earlier rendering with other data: all single '
+                'pre-emptions; 3 threads on the compiled template (random, 2 of them stopped); on the uncompiled template: strided '
+                'single pre-emptions, pre-emptions 0..3 lines after each shared access, the 3-pre-emption family around a second '
+                'cook, 3 threads racing the cook, random.  Systematic 2-pre-emption schedules from line-by-line profiles: for %d '
+                'one-tag templates (one per tag / expression site) every pair (A stopped, B stopped) with both inside frames holding '
+                'the same shared object (tag, expression, section list, option dict: up to 300 pairs per object, all of them for '
+                'objects of <= 16 lines, fewer per object when the one-tag template is long (loops, tree); template object and package tables: 12), on a template rendered before with other data '
+                '(threads 1,3 after 0; 3,1), with every kind of data (threads 0,1) and only compiled; first renderings: single '
+                'pre-emptions at every line of a frame holding a compiled object; 3 threads with two stopped in the same object; a '
+                'sample of the same-object pairs for the long templates; around every line that changes shared state in a '
+                'rendering of an already rendered template (all shared state — template, compiled objects, their classes, the '
+                'package\'s modules, function defaults — compared before every line; none on the unchanged library) A stopped 0..4 '
+                'lines before / after it, B around its own writes, in frames holding what A writes and at every 9th line.  The '
+                'schedule without pre-emption (threads one after the other) == new template each.  non-trivial = every scheduled '
+                'run (distinct schedule)' % (len(TEMPLATES), len(UNITS)))
     monitor(res)
     explore(res, tier, have_driver, r)
     res.nontrivial.add(('runs', res.evaluations))
@@ -313,7 +1032,9 @@ def run(res, tier, have_driver):
                        'bytecode-level switch points inside one line and C-level atomicity are runtime behaviour the model cannot '
                        'exhibit; the scheduler explores schedules, it does not prove; the theorem covers every schedule of the model')
     res.assumptions += ['the model has no per-render shared write: checked by the shared-write monitor (renders of a compiled template '
-                        'change nothing reachable from the template, its blocks, the command table)',
+                        'change nothing reachable from the template, its blocks, the command table) and line by line (no line of a '
+                        'rendering of an already rendered template changes the template, its compiled objects, their classes, the '
+                        'package\'s module globals or function defaults, not even for the duration of a few lines)',
                         'the events test/acquire/writeBlocks/writeFlag/release/readBlocks are located in DT_String.py by pattern; a '
                         'pattern that no longer matches is reported as a broken correspondence']
 
